@@ -9,6 +9,7 @@
 //
 // usage: parmcb-sa --out=FILE --root=/repo/ [--root=/verif/witness/] SRC -- <compile flags>
 
+#include <cmath>
 #include "clang/AST/ASTConsumer.h"
 #include "clang/AST/ASTContext.h"
 #include "clang/AST/DeclCXX.h"
@@ -410,7 +411,7 @@ struct Extractor {
                 if (E->EvaluateAsFloat(FV, Ctx, Expr::SE_NoSideEffects)) {
                     bool lose = false;
                     FV.convert(llvm::APFloat::IEEEdouble(), llvm::APFloat::rmNearestTiesToEven, &lose);
-                    O["fv"] = FV.convertToDouble();
+                    { double dv_ = FV.convertToDouble(); if (std::isfinite(dv_)) O["fv"] = dv_; else O["fv_nonfinite"] = dv_ > 0 ? "inf" : (dv_ < 0 ? "-inf" : "nan"); }
                 }
             }
         }
@@ -435,7 +436,7 @@ struct Extractor {
         } else if (auto *CL = dyn_cast<CharacterLiteral>(S)) {
             O["v"] = (int64_t)CL->getValue();
         } else if (auto *FL = dyn_cast<FloatingLiteral>(S)) {
-            O["v"] = FL->getValueAsApproximateDouble();
+            { double dv_ = FL->getValueAsApproximateDouble(); if (std::isfinite(dv_)) O["v"] = dv_; else O["fv_nonfinite"] = "inf"; }
         } else if (auto *SL = dyn_cast<clang::StringLiteral>(S)) {
             if (SL->getCharByteWidth() == 1) O["v"] = SL->getString().str();
         } else if (auto *BO = dyn_cast<BinaryOperator>(S)) {
